@@ -135,7 +135,8 @@ impl Instance {
         let id_base = self.defined_ids().last().map(|id| id + 1).unwrap_or(0);
         let mut objective = self.objective().into_owned();
         let mut parameters = Vec::new();
-        let mut removed_constraints = Vec::new();
+        // Constraints which have been removed before are kept as they are
+        let mut removed_constraints = self.removed_constraints;
         for (i, c) in self.constraints.into_iter().enumerate() {
             let parameter = Parameter {
                 id: id_base + i as u64,
@@ -173,7 +174,8 @@ impl Instance {
             name: Some("uniform_penalty_weight".to_string()),
             ..Default::default()
         };
-        let mut removed_constraints = Vec::new();
+        // Constraints which have been removed before are kept as they are
+        let mut removed_constraints = self.removed_constraints;
         let mut quad_sum = Function::zero();
         for c in self.constraints.into_iter() {
             let f = c.function().into_owned();
